@@ -123,6 +123,14 @@ void ControlFlowExecutor::execute_for_statement(const ASTNode *node) {
                 if (should_execute_init) {
                     init_var_name = node->init_expr->name;
                     init_var_declared = true;
+                    // remember across suspensions that this loop declared it
+                    (*interpreter_->current_statement_positions())
+                        [node->init_expr.get()] = 1;
+                } else if (interpreter_->current_statement_positions()->count(
+                               node->init_expr.get())) {
+                    // re-entered after a yield: this loop owns the variable
+                    init_var_name = node->init_expr->name;
+                    init_var_declared = true;
                 }
             } else {
                 // 変数宣言でない場合（代入など）は常に実行
@@ -206,6 +214,8 @@ void ControlFlowExecutor::execute_for_statement(const ASTNode *node) {
     // これにより、次のforループで同じ変数名を使える
     if (init_var_declared && !init_var_name.empty()) {
         interpreter_->remove_variable_from_current_scope(init_var_name);
+        interpreter_->current_statement_positions()->erase(
+            node->init_expr.get());
     }
 
     // forループのdeferスコープを終了（deferを実行）
